@@ -49,6 +49,7 @@ type Prog struct {
 	mods      map[*ssa.Function]*ModSet
 	fieldVals map[*types.Var][]ssa.Value
 	fvDone    bool
+	nonNilG   map[*ssa.Global]bool
 }
 
 // Load type-checks the current working tree of repo and builds SSA for the
